@@ -118,7 +118,8 @@ Print Assumptions C06_ws_insignificant.
         generated table in any letter case / inner spacing, with or without space before it, optionally followed by
         "of" / "of the" [2 Kg of the 'flour'] (reusing C12's recognition theorems); [n of (the)]; [n %] and
         [n % of (the)]; [n *]; the remainder words [remaining / remainder / rest / left over] in any case, optionally
-        followed by "of" / "of the".  NOT covered: explicit quantities [{2 "sprigs"}];
+        followed by "of" / "of the"; explicit quantities [{ 2 "big sprigs" } of the] with a quoted free-form unit
+        (characters that need no escape) or without unit.  NOT covered: naked or multi-segment free-form units;
       - steps with any number of inputs, nesting to any depth, arbitrary whitespace (line breaks included)
         around parentheses and commas, optional trailing comma;
       - left-to-right shorthand at statement level and inside parentheses;
@@ -160,13 +161,16 @@ Definition C06_example_recipe2 : precipe :=
                     ([], [32], XRef (Some (AmOf (NTFrac 0 1 [] 0 2) [32] (PwOf (s "of")), [32])) (nm "sauce"));
                     ([], [32], XRef (Some (AmPercent (NTInt 0 50) [] (Some ([32], PwOf (s "oF"))), [9])) (nm "stock"));
                     ([], [32], XRef (Some (AmRem (RwWord 2 (s "REST")) (Some ([32], PwOfThe (s "of") [32] (s "the"))), [32])) (nm "oil"));
-                    ([], [32], XRef (Some (AmRem (RwLeftOver (s "Left") [32; 32] (s "over")) None, [])) (nm "wine"))]
+                    ([], [32], XRef (Some (AmRem (RwLeftOver (s "Left") [32; 32] (s "over")) None, [])) (nm "wine"));
+                    ([], [32], XRef (Some (AmExplicit (NTMixed 0 1 [32] 0 1 [] [] 0 2) [32] (Some ([9], 34, s "big sprigs")) []
+                                             (Some ([32], PwOf (s "of"))), [32])) (nm "thyme"));
+                    ([], [32], XRef (Some (AmExplicit (NTInt 0 3) [] None [32] None, [])) (mkName (SB [BStr (s "eggs") []]) []))]
                    None [])
            [] ([], None) ].
 
 Example C06_roundtrip_quoted_ex2 :
   recipe_ok C06_example_recipe2 = true /\
-  print_recipe C06_example_recipe2 = s "'mix'(2 Kg OF  the 'flour', 1.5Tea  Spoons'salt', 1/2 of 'sauce', 50% oF" ++ [9] ++ s "'stock', REST of the 'oil', Left  over'wine')" /\
+  print_recipe C06_example_recipe2 = s "'mix'(2 Kg OF  the 'flour', 1.5Tea  Spoons'salt', 1/2 of 'sauce', 50% oF" ++ [9] ++ s "'stock', REST of the 'oil', Left  over'wine', { 1 1/2" ++ [9] ++ s """big sprigs""} of 'thyme', {3 }{eggs})" /\
   parse (print_recipe C06_example_recipe2) = POk (value_recipe C06_example_recipe2).
 Proof. vm_compute. repeat split; reflexivity. Qed.
 
